@@ -79,8 +79,8 @@ Mk(i, sk, pr) ==
                                  ELSE [base EXCEPT !.deps = "gcc", !.hdrs = <<hsrc>>]
 
 Srcs(stmts) ==
-  LET used == UNION {ToSet(stmts[i].ex) \cup ToSet(stmts[i].im) \cup ToSet(stmts[i].oo) \cup ToSet(stmts[i].hdrs) : i \in DOMAIN stmts}
-      outs == UNION {ToSet(stmts[i].outs) \cup ToSet(stmts[i].iouts) : i \in DOMAIN stmts}
+  LET used == UNION {ToSet(stmts[i].ex) \cup ToSet(stmts[i].im) \cup ToSet(stmts[i].oo) \cup ToSet(stmts[i].hdrs) \cup ToSet(stmts[i].ddi) : i \in DOMAIN stmts}
+      outs == UNION {ToSet(stmts[i].outs) \cup ToSet(stmts[i].iouts) \cup ToSet(stmts[i].ddo) : i \in DOMAIN stmts}
   IN SetToSeq(used \ outs)
 
 Graph(stmts) == [srcs |-> Srcs(stmts), pools |-> <<>>, stmts |-> stmts]
@@ -102,7 +102,7 @@ GraphsOfC(shape, profs) ==
 (* Histories.                                                               *)
 (***************************************************************************)
 AllOutsG(gr) == UNION {ToSet(gr.stmts[i].outs) \cup ToSet(gr.stmts[i].iouts) : i \in DOMAIN gr.stmts}
-Consumed(gr) == UNION {ToSet(gr.stmts[i].ex) \cup ToSet(gr.stmts[i].im) \cup ToSet(gr.stmts[i].oo) : i \in DOMAIN gr.stmts}
+Consumed(gr) == UNION {ToSet(gr.stmts[i].ex) \cup ToSet(gr.stmts[i].im) \cup ToSet(gr.stmts[i].oo) \cup ToSet(gr.stmts[i].ddi) : i \in DOMAIN gr.stmts}
 Roots(gr) == SetToSeq({gr.stmts[i].outs[1] : i \in {j \in DOMAIN gr.stmts : ToSet(gr.stmts[j].outs) \cap Consumed(gr) = {}}})
 
 Build(targets, j, k) == [op |-> "build", targets |-> targets, j |-> j, k |-> k, fail |-> <<>>]
@@ -267,6 +267,83 @@ FamCrash(K, CH) ==
   UNION { {Scn(gr, <<Build(Roots(gr), 2, 1), c, BX(Roots(gr), 2, 1, [crash |-> [point |-> pt, n |-> n]]), Build(Roots(gr), 2, 1), Build(Roots(gr), 2, 1)>>) :
               pt \in CrashPoints, n \in {1, 2}, c \in Pick(CH, ChangesET(gr))} : gr \in CrashGraphs(K) }
 
+(***************************************************************************)
+(* C10: discovered dependencies versus the same dependencies declared.      *)
+(* Profiles: header is a source, or generated by statement 1 with           *)
+(* ("gccgen") or without ("gccgen0", "depgen0") an order-only path to the   *)
+(* generator.  Without a manifest path the history first brings the         *)
+(* generator up to date (Appendix A, first-build ordering).                 *)
+(***************************************************************************)
+MkT(i, sk, pr) ==
+  LET base == [Stmt0 EXCEPT !.id = i, !.outs = <<O(i)>>, !.ex = sk.ex, !.im = sk.im, !.oo = sk.oo, !.val = sk.val, !.phony = sk.phony]
+      ins == ToSet(sk.ex) \cup ToSet(sk.im) \cup ToSet(sk.oo)
+  IN IF sk.phony \/ i = 1 \/ "o1" \in ins THEN Mk(i, sk, IF pr \in {"gccgen0", "depgen0", "msvcgen0"} THEN "gcc" ELSE pr)
+     ELSE CASE pr = "gccgen0" -> [base EXCEPT !.deps = "gcc", !.hdrs = <<"o1">>]
+            [] pr = "depgen0" -> [base EXCEPT !.deps = "depfile", !.hdrs = <<"o1">>]
+            [] pr = "msvcgen0" -> [base EXCEPT !.deps = "msvc", !.hdrs = <<"o1">>]
+            [] OTHER -> Mk(i, sk, pr)
+TwinProfiles == {"plain", "restat", "gcc", "depfile", "msvc", "gccgen", "gccgen0", "depgen0", "msvcgen0", "restatgcc"}
+TwinShapes == {"chain2", "chain3", "fanin", "fanout", "mixed", "indep", "implicit", "oonly", "alias", "diamond"}
+TwinGraphs(K) ==
+  UNION { LET sk == Shapes[sh]  n == Len(sk) IN
+          { Graph([i \in 1..n |-> MkT(i, sk[i], IF sk[i].phony THEN "plain" ELSE pa[i])]) : pa \in PickF(K, n, TwinProfiles) } : sh \in TwinShapes }
+HasDeps(gr) == \E i \in DOMAIN gr.stmts : gr.stmts[i].deps # ""
+\* changes that have a counterpart in the declared variant (a depfile can only be deleted in the discovered one)
+ChangesTw(gr) == {c \in ChangesET(gr) : c.op = "del" => c.f \in AllOutsG(gr)}
+ScnT(gr, hist, kind) == [srcs |-> gr.srcs, pools |-> gr.pools, stmts |-> gr.stmts, hist |-> hist, twin |-> kind]
+FamTwin(K, CH) ==
+  UNION { {ScnT(gr, <<Build(<<"o1">>, 1, 1), Build(Roots(gr), j, 1), cc[1], cc[2], Build(Roots(gr), j, 1), Build(Roots(gr), j, 1)>>, "deps") :
+              j \in {1, 2}, cc \in Pick(CH, ChangesTw(gr) \X ChangesTw(gr))}
+          \cup {ScnT(gr, <<Build(<<"o1">>, 1, 1), Build(Roots(gr), 2, 1), c, Build(<<t>>, 2, 1), Build(Roots(gr), 2, 1)>>, "deps") :
+              c \in Pick(CH, ChangesTw(gr)), t \in Pick(2, AllOutsG(gr))} :
+          gr \in {x \in TwinGraphs(K) : HasDeps(x)} }
+
+(***************************************************************************)
+(* C11 / C04: dyndep.  Explicit graphs: the dyndep file is a source or is   *)
+(* produced during the build (by a clean or dirty statement), is shared,    *)
+(* two levels deep, adds inputs (sources or outputs of other statements),   *)
+(* outputs and restat.  A dyndep-discovered output is consumed only through *)
+(* dyndep-discovered inputs (DESIGN.md 6.C11).                              *)
+(***************************************************************************)
+St1(i, outs, ex, oo) == [Stmt0 EXCEPT !.id = i, !.outs = outs, !.ex = ex, !.oo = oo]
+DynGraphs == {
+  \* dd is a source; discovered input is a source
+  Graph(<< [St1(1, <<"o1">>, <<"s1">>, <<"dd">>) EXCEPT !.dd = "dd", !.ddi = <<"s2">>] >>),
+  \* dd is produced; discovered input is the output of statement 3
+  Graph(<< [St1(1, <<"dd">>, <<"s1">>, <<>>) EXCEPT !.mkdd = "dd"],
+           [St1(2, <<"o2">>, <<"s2">>, <<"dd">>) EXCEPT !.dd = "dd", !.ddi = <<"o3">>],
+           St1(3, <<"o3">>, <<"s1">>, <<>>) >>),
+  \* discovered output consumed through a discovered input
+  Graph(<< [St1(1, <<"dd">>, <<"s1">>, <<>>) EXCEPT !.mkdd = "dd"],
+           [St1(2, <<"o2">>, <<"s2">>, <<"dd">>) EXCEPT !.dd = "dd", !.ddo = <<"x2">>],
+           [St1(3, <<"o3">>, <<"s2">>, <<"dd">>) EXCEPT !.dd = "dd", !.ddi = <<"x2">>] >>),
+  \* shared dyndep file, restat through dyndep
+  Graph(<< [St1(1, <<"dd">>, <<"s1">>, <<>>) EXCEPT !.mkdd = "dd"],
+           [St1(2, <<"o2">>, <<"s2">>, <<"dd">>) EXCEPT !.dd = "dd", !.ddi = <<"s1">>, !.ddr = TRUE],
+           [St1(3, <<"o3">>, <<"o2">>, <<"dd">>) EXCEPT !.dd = "dd", !.ddi = <<"s2">>],
+           St1(4, <<"o4">>, <<"o2">>, <<>>) >>),
+  \* two levels: the second dyndep file is produced by a statement that has a dyndep file itself
+  Graph(<< [St1(1, <<"dd1">>, <<"s1">>, <<>>) EXCEPT !.mkdd = "dd1"],
+           [St1(2, <<"dd2">>, <<"s2">>, <<"dd1">>) EXCEPT !.mkdd = "dd2", !.dd = "dd1", !.ddi = <<"s1">>],
+           [St1(3, <<"o3">>, <<"s1">>, <<"dd2">>) EXCEPT !.dd = "dd2", !.ddi = <<"o4">>],
+           St1(4, <<"o4">>, <<"s2">>, <<>>) >>),
+  \* another order-only input in front of the dyndep file
+  Graph(<< [St1(1, <<"dd">>, <<"s1">>, <<>>) EXCEPT !.mkdd = "dd"],
+           St1(2, <<"st">>, <<"s2">>, <<>>),
+           [St1(3, <<"o3">>, <<"s2">>, <<"st", "dd">>) EXCEPT !.dd = "dd", !.ddi = <<"o4">>],
+           St1(4, <<"o4">>, <<"s1">>, <<>>) >>),
+  \* dyndep file as implicit input, discovered output and input at once, consumer chain
+  Graph(<< [St1(1, <<"dd">>, <<"s1">>, <<>>) EXCEPT !.mkdd = "dd"],
+           [St1(2, <<"o2">>, <<"s2">>, <<"dd">>) EXCEPT !.dd = "dd", !.ddi = <<"s1">>, !.ddo = <<"x2">>],
+           St1(3, <<"o3">>, <<"o2">>, <<>>),
+           [St1(4, <<"o4">>, <<"o3">>, <<"dd">>) EXCEPT !.dd = "dd", !.ddi = <<"x2">>] >>)
+}
+DynVariants(gr) == {gr} \cup {[gr EXCEPT !.stmts = [i \in DOMAIN gr.stmts |-> IF i = k /\ gr.stmts[i].mkdd = "" THEN [gr.stmts[i] EXCEPT !.restat = TRUE] ELSE gr.stmts[i]]] : k \in DOMAIN gr.stmts}
+FamDyn(K, CH) ==
+  UNION { {ScnT(gr, <<Build(Roots(gr), j, 1), c, Build(Roots(gr), j, 1), Build(Roots(gr), j, 1)>>, "dyn") : j \in {1, 2, 3}, c \in Pick(CH, Changes(gr))}
+          \cup {ScnT(gr, <<Build(<<t>>, 2, 1), c, Build(Roots(gr), 2, 1), Build(Roots(gr), 2, 1)>>, "dyn") : t \in Pick(2, AllOutsG(gr)), c \in Pick(CH, Changes(gr))} :
+          gr \in UNION {DynVariants(x) : x \in DynGraphs} }
+
 ParK == IF "K" \in DOMAIN IOEnv THEN atoi(IOEnv.K) ELSE 3
 ParCH == IF "CH" \in DOMAIN IOEnv THEN atoi(IOEnv.CH) ELSE 3
 
@@ -277,6 +354,8 @@ Family(name) ==
     [] name = "sched" -> FamSched(ParK, ParCH)
     [] name = "fail" -> FamFail(ParK, ParCH)
     [] name = "rand" -> FamRand(ParK, ParCH)
+    [] name = "twin" -> FamTwin(ParK, ParCH)
+    [] name = "dyn" -> FamDyn(ParK, ParCH)
     [] name = "pools" -> FamPools(ParK, ParCH)
     [] name = "jobs" -> FamJobs(ParK, ParCH)
     [] name = "intr" -> FamIntr(ParK, ParCH)
